@@ -63,15 +63,11 @@ def showCall (runners : Nat) (c : Call) : String :=
 def showCalls (runners : Nat) (cs : List Call) : String :=
   if cs.isEmpty then "-" else joinWith " | " (cs.map (showCall runners))
 
-/-- where the model of the code as it is and the ideal splitter differ, the line names the recorded defect whose
-situation the trace is in: a restore that lost withheld shards (D16c, `tainted`); any other difference (also a
-restore that drops a reported position again: D52 is repaired) is tagged with an id that is not a recorded finding and
-is therefore reported -/
-def both (impl : Sp) (a b : String) : String :=
-  if a == b then a
-  else if impl.tainted then s!"{a} #spec {b} #kf D16c"
-  else if impl.dropped then s!"{a} #spec {b} #kf D52-REGRESSION"
-  else s!"{a} #spec {b} #kf UNEXPLAINED"
+/-- the model of the code and the ideal splitter are run side by side; since D16c and D52 are repaired they are the
+same model (`codeKeep = codeReadd = true`), so a difference cannot arise; should a future change of the switches
+reintroduce one, the line carries an id that is no recorded finding and is therefore reported -/
+def both (_impl : Sp) (a b : String) : String :=
+  if a == b then a else s!"{a} #spec {b} #kf UNEXPLAINED"
 
 def parentsOf (s : Sp) (i : Nat) : List Nat := (s.stream[i]?.map (·.parents)).getD []
 
@@ -104,8 +100,13 @@ def showCkpt (s : Sp) : String :=
 `resumeFinishedShards`); `false` was the old rule (`C16.reported_positions_resumed_counterexample`). -/
 def codeReadd : Bool := true
 
+/-- the code under test persists withheld shards in the splitter checkpoint (D16c repaired, /repo e1d3d29:
+`withheld_shards`, `CheckpointState`); `false` was the old rule (`C16.children_withheld_counterexample`). With
+`codeKeep` and `codeReadd` the code is the ideal splitter. -/
+def codeKeep : Bool := true
+
 def kstep (k : KSt) (a : Act) (withLost : Bool := true) : KSt × String :=
-  let (i', ci) := Splits.step false codeReadd k.impl a
+  let (i', ci) := Splits.step codeKeep codeReadd k.impl a
   let (s', cs) := Splits.step true true k.spec a
   ({ k with impl := i', spec := s' },
    both i' (showCalls i'.runners ci ++ " ; " ++ chk withLost i') (showCalls s'.runners cs ++ " ; " ++ chk withLost s'))
@@ -164,7 +165,7 @@ def stepCut (r : RSt) : List String → RSt × String
   | ["readbar1", n, b] => let r' := rstep (rstep r (.read (batchList b))) (.barrier (natOr n)); (r', showBarrier r')
   | ["readbar2", n, b] => let r' := rstep (rstep r (.read (batchList b))) (.barrier (natOr n)); (r', showBarrier r')
   | ["readbar3", n, _, b] => let r' := rstep (rstep r (.read (batchList b))) (.barrier (natOr n)); (r', showBarrier r')
-  | ["end"] => (r, "ok")   -- spec: C16.cursor_matches_cut for every report
+  | ["end"] => (r, "ok")   -- spec: C16.cursor_matches_cut_partial for every report
   | _ => (r, "bad-op")
 
 def showGroups (gs : List (List Nat)) : String :=
@@ -196,10 +197,14 @@ def kAssignList (s : String) : List (Nat × Nat) :=
     | _ => (0, 0)
 
 /-- the real Kinesis reader under the real runner, one gated `ReadEvents` per `kread`. `kread` / `kbarrier` print the
-verdict of `C16.cursor_matches_cut_kinesis` evaluated on the implementation (spec `ok`); the `…m` forms print what the
+verdict of `C16.cursor_matches_cut_kinesis_partial` evaluated on the implementation (spec `ok`); the `…m` forms print what the
 model of the round-robin reader predicts (mechanism). -/
 def stepKread (k : KRd) : List String → KRd × String
-  | ["put", s, n] => ((Splits.kstep k (.put (natOr s) (natOr n))).1, "ok")
+  | ["put", s, n] =>
+    if k.closed.contains (natOr s) then (k, "closed")   -- a closed shard takes no more records
+    else ((Splits.kstep k (.put (natOr s) (natOr n))).1, "ok")
+  | ["close", s] => ((Splits.kstep k (.close (natOr s))).1, "ok")
+  | ["expire"] => ((Splits.kstep k .expire).1, "ok")
   | ["assign", l] => ((Splits.kstep k (.assign (kAssignList l))).1, "ok")
   | ["fail", n] => ((Splits.kstep k (.fail (natOr n))).1, "ok")
   | ["kread"] => ((Splits.kstep k .read).1, "ok")
@@ -238,7 +243,7 @@ def step (st : St) (ws : List String) : St × String :=
   match st with
   | .kin k => let (k', o) := stepKin k ws; (.kin k', o)
   | .cut r => let (r', o) := stepCut r ws; (.cut r', o)
-  | .ecut => (.ecut, match ws with   -- free-running real reader: every op evaluates C16.cursor_matches_cut, spec `ok`
+  | .ecut => (.ecut, match ws with   -- free-running real reader: every op evaluates C16.cursor_matches_cut_partial, spec `ok`
       | ["assign", _] | ["pause", _] | ["barrier", _] => "ok"
       | _ => "bad-op")
   | .ckrace => (.ckrace, match ws with   -- spec: the checkpoint is one consistent view (C16.checkpoint_is_one_locked_read)
@@ -250,7 +255,7 @@ def step (st : St) (ws : List String) : St × String :=
 
 def initSt (header : String) : St :=
   match words header with
-  | ["M", "C16", "kin", shards, runners] =>
+  | "M" :: "C16" :: "kin" :: shards :: runners :: _ =>   -- an optional third number: ListShards page size (harness only)
     let s := initSp (natOr shards) (natOr runners)
     .kin { impl := s, spec := s }
   | "M" :: "C16" :: "cut" :: _ => .cut {}
